@@ -286,6 +286,25 @@ def report_known(ck, known, listed):
     return unlisted
 
 
+def theorem_of(l):
+    """the theorem of props/C13.v that covers the builder of a recorded statement for ALL its inputs, or None when the
+    statement is only judged (per recorded statement) by the oracle"""
+    ep, sql = l["ep"], l["sql"]
+    if ep in ("loki_tail",) or ep.startswith("loki_range_") or ep.startswith("loki_instant_"):
+        return "every_scan_confined / every_metric_scan_confined (LogqlPlan)"
+    if ep in LV_EPS:
+        return "label_values_every_scan_bounded / series_every_scan_bounded (ScansPlanners)"
+    if ep in ("loki_labels", "prom_labels"):
+        return "label_names_every_scan_bounded (ScansPlanners.labels_query)"
+    if ep.startswith("prom_range_") or ep.startswith("prom_instant"):
+        if " FROM time_series" in sql and "JSONExtractKeysAndValues" in sql:
+            return "prom_labels_fetch_date_covers (+ refutation: untyped) (PromSel.labels_fetch)"
+        return "prom_every_scan_bounded (PromSel.querier_transpile)"
+    if ep in TQ_EPS and not sql.startswith("WITH pre_final"):
+        return "traceql_every_scan_confined (TraceqlPlan.plan)"
+    return None
+
+
 def run_scan(ck):
     ok, out = ck.coq_make(["model/ScanCases.vo"])
     if not ok:
@@ -313,6 +332,8 @@ def run_scan(ck):
                  "--schemas", "new" if ck.quick() else "both"]
         runs.append(("sweep", sweep))
     hist = {}
+    split = {"statements_whose_builder_is_under_a_theorem_for_all_inputs": 0, "statements_judged_per_statement_only": 0,
+             "by_theorem": {}, "judged_only_endpoints": {}}
     distinct = set()
     sample_lines = []
     coq_sample = []
@@ -344,6 +365,13 @@ def run_scan(ck):
             if l["kind"] != "stmt":
                 continue
             hist[l["ep"]] = hist.get(l["ep"], 0) + 1
+            th = theorem_of(l)
+            if th:
+                split["statements_whose_builder_is_under_a_theorem_for_all_inputs"] += 1
+                split["by_theorem"][th] = split["by_theorem"].get(th, 0) + 1
+            else:
+                split["statements_judged_per_statement_only"] += 1
+                split["judged_only_endpoints"][l["ep"]] = split["judged_only_endpoints"].get(l["ep"], 0) + 1
             if res.get(l["id"], {}).get("nscans", 0) >= 1:
                 distinct.add(l["sql"])
             if l.get("tree_coq") and not l["cluster"] and name == "sweep":
@@ -384,8 +412,11 @@ def run_scan(ck):
                             "labels/values/series/query_range/query with raw, downsampled and range-function selects, Tempo trace/tags/values/search by "
                             "tags and TraceQL, Pyroscope types/labels/values/merge/series/stats/analyze/render-diff) x 5 process time zones x both table "
                             "layouts x 12 fixed windows (midnight, month/year end, leap day, first half hour, sub-second) + seeded random windows; "
-                            "non-trivial = statement with at least one base-table read, distinct by SQL text; checked per statement, not proved per program. ")
+                            "non-trivial = statement with at least one base-table read, distinct by SQL text; every statement is judged by the oracle; the builders of the "
+                            "LogQL, label-values / series, Prometheus Select and TraceQL statements are in addition under planner theorems for all inputs "
+                            "(extra.proved_vs_judged has the measured split); the rest (labels, Tempo v1 search / tags / trace by id, Pyroscope) is judged per statement only. ")
     ck.extra["statements_per_endpoint"] = hist
+    ck.extra["proved_vs_judged"] = split
     ck.extra["statements_checked_by_oracle"] = total
     ck.extra["known_finding_hits"] = {k: len(v) for k, v in all_known.items()}
     ck.add_samples([{"endpoint": l["ep"], "zone": l["zone"], "window": [l["from_ns"], l["to_ns"]], "sql": l["sql"][:400]} for l in sample_lines[:3]])
@@ -532,6 +563,35 @@ def run_label_tie(ck, lines):
                   "; ".join("%s %s %s: %.300s" % (cases[i]["ep"], "cluster" if cases[i]["cluster"] else "single", cases[i]["class"], cases[i]["sql"]) for i in bad[:3]))
     ck.extra["label_model_ties"] = len(cases)
     ck.coverage["evaluations"] += len(cases)
+    # label names: QueryLabelsService.Labels
+    ln, seen = [], set()
+    for l in lines:
+        if l["kind"] != "stmt" or l["ep"] not in ("loki_labels", "prom_labels") or l["zone"] not in (0, 50400):
+            continue
+        key = (l["ep"], l["cluster"], l["class"])
+        if key in seen:
+            continue
+        seen.add(key)
+        ln.append(l)
+    items = ["{| ln_id := %d; ln_table := %s; ln_ty := %d; ln_start_ms := %d; ln_end_ms := %d; ln_sql := %s |}" % (
+        i, coq_string("time_series_gin_dist" if l["cluster"] else "time_series_gin"), 1 if l["ep"] == "loki_labels" else 2,
+        l["from_ns"] // 1000000, l["to_ns"] // 1000000, coq_string(l["sql"])) for i, l in enumerate(ln)]
+    txt = ("From Coq Require Import List ZArith NArith String Ascii Bool.\n"
+           "From Qryn Require Import lib.Strs model.Sql model.ScansPlanners.\n"
+           "Import ListNotations.\nOpen Scope string_scope.\nOpen Scope Z_scope.\n"
+           "Definition cases : list ln_case := [\n " + ";\n ".join(items) + "].\n"
+           "Definition M := Eval vm_compute in ln_mismatches cases.\nPrint M.\n")
+    rc, out = ck.coq_eval("C13_label_names", txt, timeout=600)
+    flat = " ".join((out or "").split())
+    m = re.search(r"M = \[(.*?)\]\s*: list Z", flat)
+    if rc != 0 or not m or not ln:
+        ck.obligation("label names query model evaluated on the requests of the sweep", False, (out or "")[-1500:])
+        return
+    bad = [int(x) for x in re.findall(r"-?\d+", m.group(1))]
+    ck.obligation("correspondence: render (labels_query) = recorded statement, byte for byte, on %d label-names requests (Loki and Prometheus, both layouts, "
+                  "every window class)" % len(ln), not bad,
+                  "; ".join("%s %s %s [%d,%d): %.300s" % (ln[i]["ep"], "cluster" if ln[i]["cluster"] else "single", ln[i]["class"], ln[i]["from_ns"], ln[i]["to_ns"], ln[i]["sql"]) for i in bad[:3]))
+    ck.coverage["evaluations"] += len(ln)
 
 
 # ---------------------------------------------------------------- the stored day of trace attribute rows
@@ -632,8 +692,11 @@ def run(ck):
         "is the reading behind scan_bounded; window_semantic states it over an abstract row predicate",
         "C13: harness/sqlparse and ocaml/scans_driver.ml are untrusted (every tree is validated: render tree = statement text, wf_parsed); "
         "the normalisation `as ((` -> `as (` of redundant parentheses around a WITH body (checks/c13.py normalize) is trusted",
-        "C13: statements of builders not transcribed in Coq are checked per recorded statement (sampling of requests), not proved per program; "
-        "writer-side dates are taken to be UTC days (C04 owns the writer)",
+        "C13: statements of builders not transcribed in Coq (Tempo v1 search / tags / trace by id, Pyroscope planners around the stream selector, TraceQL "
+        "complexity estimate) are checked per recorded statement (sampling of requests), not proved per program; the enumerators scans / tq_scans and the "
+        "conjunct translation cv are the definition of 'every read of a statement'",
+        "C13: stored dates: trace attribute rows tied to the real write path by harness spandate (32 zones); series rows by C04 (fix 433b3ba); "
+        "profiles_series dates are computed by a materialized view inside ClickHouse (not modelled)",
     ]
     ck.coq_props()
     # the shared sqltext runs use fixed scratch-directory names ("logql", "logqlm") under .build/ocaml/<repo>/:
@@ -649,6 +712,13 @@ def run(ck):
         sqltext.run_logql(ck, n_quick=400, n_thorough=20000)
         if hasattr(sqltext, "run_logql_metric"):
             sqltext.run_logql_metric(ck, n_quick=300, n_thorough=15000)
+    if not ck.replay and not ck.quick():
+        # the Prometheus / Pyroscope selector theorems are about PromSel.v / ProfSel.v: C17's byte-exact correspondence
+        try:
+            from checks import promsel
+            promsel.run(ck)
+        except ImportError:
+            pass
     if not ck.replay:
         static_date_sites(ck)
         run_spandate(ck)
